@@ -208,6 +208,17 @@ fn hist_op<T: Pod, L: spl_list_view::PodLength>(h: &mut Hist, op: &[&str]) -> (S
     let lmax: u128 = if wl == 16 { u128::MAX } else { (1u128 << (8 * wl)) - 1 };
     let failed = !matches!(r, Some(Ok(_)));
     if failed && after != before && op[0] != "set" { err = Some("a failed operation changed bytes of the buffer".into()); }
+    if op[0] == "reopen" {
+        // "the bytes are always the element count as a little-endian prefix": a view that opens shows exactly the count the
+        // whole prefix encodes (whatever the history, also for a raw starting buffer)
+        if let Some(Ok(x)) = &r {
+            if let Some(l) = x.strip_prefix("len=").and_then(|y| y.split(' ').next()).and_then(|y| y.parse::<u128>().ok()) {
+                let mut le = [0u8; 16];
+                le[..wl].copy_from_slice(&after[..wl]);
+                if u128::from_le_bytes(le) != l { err = Some(format!("the opened list has {l} elements but its prefix bytes encode {}", u128::from_le_bytes(le))); }
+            }
+        }
+    }
     match (op[0], &mut h.shadow) {
         ("init", sh) => {
             {
@@ -485,6 +496,24 @@ pub fn generate_c09(tier: &str, rng: &mut Rng) -> Vec<String> {
         v.push("E".into());
         case += 1;
     }}}
+    // wide prefixes whose upper bytes are not zero while the lower bytes alone would be a legal count: every byte of the
+    // prefix is part of the count (a 128-bit prefix is not read as 64 bits, a 64-bit one not as 32)
+    for (t, l, sz) in [("u8", "p32", 1usize), ("u8", "p64", 1), ("u8", "p128", 1), ("m35", "p64", 35), ("m35", "p128", 35), ("b3", "p128", 3)] {
+        let wl = prefix_width(l);
+        for hi in (wl / 2)..wl {
+            for low in [0u8, 3] {
+                let mut b = vec![0u8; wl + 4 * sz];
+                b[0] = low; b[hi] = if hi % 2 == 0 { 1 } else { 0x80 };
+                for (i, x) in b[wl..].iter_mut().enumerate() { *x = i as u8 + 1; }
+                v.push(format!("B {case} lvh {t} {l} 0 {}", hex(&b)));
+                for op in ["O reopen", "O remove 0", "O reopen"] { v.push(op.into()); }
+                v.push(format!("O push {}", hex(&vec![9u8; sz])));
+                v.push("O reopen".into());
+                v.push("E".into());
+                case += 1;
+            }
+        }
+    }
     // the prefix-maximum case: one-byte elements, 16-bit prefix, capacity 65536, length 65535
     for (t, l) in [("u8", "p16")] {
         for cap in [65535usize, 65536] {
